@@ -21,6 +21,8 @@ var (
 	c18Seps     = []string{" ", "\t", "  ", " \t"}
 	c18Names    = []string{"example.org", "a.b.test", "x-1.test"}
 	c18Comments = []string{"", "#c", " #c", "\t#c", " # c x", " ## c", "#", " #", "  # 0.0.0.0 other.test", " # see https://example.com/list", " # a@b.c | $x ^ * ||ads^$third-party",
+		// element-hiding markers inside a comment
+		" ### added", " # see issue##12", " # was: host#@#.banner", " # x #?# y",
 		// longer than the 4 KiB read buffer, with a tail that is host syntax on its own
 		" # " + strings.Repeat("-", 4090) + " 0.0.0.0 ghost.test"}
 	c18Trailing = []string{"", " ", "\t "}
@@ -138,6 +140,44 @@ func c18Check(c *Ctx, l c18Line, engine bool) {
 	}
 }
 
+// c18ParseWritten reads a line of the grammar without the library: address,
+// names, optional comment.  ok is false for lines outside the grammar.
+func c18ParseWritten(line string) (l c18Line, ok bool) {
+	body := line
+	if i := strings.IndexByte(body, '#'); i >= 0 {
+		if i+1 < len(body) && strings.IndexByte("#@?$%", body[i+1]) >= 0 && (i == 0 || body[i-1] != ' ' && body[i-1] != '\t') {
+			return l, false // element-hiding syntax
+		}
+		body = body[:i]
+	}
+	fields := strings.FieldsFunc(body, func(r rune) bool { return r == ' ' || r == '\t' })
+	if len(fields) == 0 || strings.TrimSpace(body) != strings.Trim(body, " \t") {
+		return l, false
+	}
+	for _, f := range fields {
+		for _, ch := range f {
+			if ch > 0x7e || ch < 0x21 {
+				return l, false
+			}
+		}
+	}
+	l.line = line
+	if len(fields) == 1 {
+		if !filterutil.IsDomainName(fields[0]) || strings.IndexByte(line, '#') >= 0 {
+			return l, false
+		}
+		l.names = fields
+		return l, true
+	}
+	a, err := netip.ParseAddr(fields[0])
+	if err != nil || a.Zone() != "" {
+		return l, false
+	}
+	l.addr = fields[0]
+	l.names = fields[1:]
+	return l, true
+}
+
 func init() {
 	register("C18", "exploration", func(c *Ctx) {
 		if c.Replay != nil {
@@ -161,7 +201,7 @@ func init() {
 			maxNames = 4
 		}
 		hA, _ := c18Collide()
-		nameAlpha := append(append([]string{}, c18Names...), hA, "ad_server.test", "printer.lan.1")
+		nameAlpha := append(append([]string{}, c18Names...), hA, "ad_server.test", "printer.lan.1", "CDN.Example.ORG")
 		build := func(nameAlpha []string, nn int, seps []string) {
 			for _, addr := range c18Addrs {
 				if addr == "" && nn != 1 {
@@ -226,7 +266,32 @@ func init() {
 				c.Run.Sample(map[string]any{"line": lines[i].line, "address": lines[i].addr, "names": lines[i].names})
 			}
 		})
-		c.Run.Set("evaluations", int64(len(lines)))
+		// corpus layer: every line of the bundled hosts file that is in the grammar
+		var corpus []c18Line
+		for _, ln := range corpusLines("testdata/hosts") {
+			if l, ok := c18ParseWritten(strings.TrimRight(ln, "\r")); ok {
+				corpus = append(corpus, l)
+			}
+		}
+		cstride := 5
+		if c.Thorough() {
+			cstride = 1
+		}
+		var picked []c18Line
+		for i := 0; i < len(corpus); i += cstride {
+			picked = append(picked, corpus[i])
+		}
+		c.parallel(len(picked), func(i int) {
+			if c.Expired() {
+				mu.Lock()
+				exhaustive = false
+				mu.Unlock()
+				return
+			}
+			c18Check(c, picked[i], false)
+		})
+		c.Run.Set("corpus_lines", int64(len(picked)))
+		c.Run.Set("evaluations", int64(len(lines)+len(picked)))
 		c.Run.Set("distinct_nontrivial", int64(len(lines)))
 		c.Run.Set("rule", fmt.Sprintf("grammar expansion: 7 address forms (incl. bare domain) x 4 separators x name sequences of length 1..%d over 3 names x 12 comment forms x 3 trailing blanks (+ mixed separators; thorough: 5..8 names over 2 names); every line distinct; each through NewRule, NewHostRule, HostRule.Match on listed/truncated/extended names and (quick: every third line) a one-line DNSEngine", maxNames))
 		c.Run.Set("exhaustive", exhaustive)
